@@ -221,7 +221,8 @@ func newInst(c cfg) *inst {
 	if err != nil {
 		panic(err)
 	}
-	abt.RegisterFunction(func() uint32 { return in.best }, func() *common.Uint256 { return &common.Uint256{} }, nil, nil)
+	abt.RegisterFunction(func() uint32 { return in.best }, func() *common.Uint256 { return &common.Uint256{} },
+		func(h uint32) (*types.Block, error) { return &types.Block{Header: common2.Header{Height: h}}, nil }, nil)
 	abt.State = state.NewState(params, nil, nil, nil, func() bool { return false }, nil, nil, nil, nil, nil, nil, nil)
 	abt.State.GetTxReference = func(tx interfaces.Transaction) (map[*common2.Input]common2.Output, error) {
 		res := map[*common2.Input]common2.Output{}
@@ -236,6 +237,15 @@ func newInst(c cfg) *inst {
 	}
 	in.abt = abt
 	return in
+}
+
+// processD connects the block and then delivers its special payloads
+func (in *inst) processD(b *blockd) {
+	in.process(b.real())
+	for _, sp := range b.Special {
+		pl := sp.payload(b.Height)
+		lib.Recover(func() { in.abt.ProcessSpecialTxPayload(pl, b.Height) })
+	}
 }
 
 func (in *inst) process(b *types.Block) {
@@ -347,6 +357,24 @@ type blockd struct {
 	Height uint32 `json:"height"`
 	Txs    []*txd `json:"txs"`
 	Time   uint32 `json:"time"`
+	// special payloads delivered through Arbiters.ProcessSpecialTxPayload at this
+	// height, after the block has been connected (not part of any block)
+	Special []*speciald `json:"special,omitempty"`
+}
+
+type speciald struct {
+	Kind string `json:"kind"` // illegal-blocks
+	Tag  byte   `json:"tag"`
+	p    interfaces.Payload
+}
+
+func (sp *speciald) payload(height uint32) interfaces.Payload {
+	if sp.p == nil {
+		sp.p = &payload.DPOSIllegalBlocks{CoinType: payload.ELACoin, BlockHeight: height,
+			Evidence:        payload.BlockEvidence{Header: []byte{1, sp.Tag}, BlockConfirm: []byte{1}, Signers: [][]byte{}},
+			CompareEvidence: payload.BlockEvidence{Header: []byte{2, sp.Tag}, BlockConfirm: []byte{2}, Signers: [][]byte{}}}
+	}
+	return sp.p
 }
 
 // ---------------------------------------------------------------- generator
@@ -364,6 +392,7 @@ type gen struct {
 	nickIDs       map[string]int
 	force         [][2]int // scripted block: (kind code, producer) pairs instead of random picks
 	scripted      bool
+	special       bool // illegal-blocks evidence delivered as a special payload between blocks (Arbiters level)
 	cycles        bool // several POW <-> DPOS cycles in one trace (RevertToPOW, RevertToDPOS, resumption, RevertToPOW, ...)
 	modeSwitch    bool // RevertToPOW / RevertToDPOS transactions (oracle only, not in the Coq model)
 	illegal       bool // illegal-proposal evidence against active producers (oracle only)
@@ -635,6 +664,11 @@ func (g *gen) block(height uint32) *blockd {
 			}
 		}
 	}
+	if g.special && g.rng.Chance(25) {
+		nonce++
+		b.Special = append(b.Special, &speciald{Kind: "illegal-blocks", Tag: byte(nonce)})
+		g.unmodelled = true
+	}
 	for _, d := range b.Txs {
 		g.allTxs = append(g.allTxs, d)
 		if d.Kind == "vote" {
@@ -823,6 +857,8 @@ func main() {
 		n    int
 		txs  map[int][][2]int
 	}
+	// scripted traces: block indices followed by an illegal-blocks special payload
+	corpusSpecial := map[string][]int{"corpus:special-illegal-blocks": {5, 9}}
 	corpus := []script{
 		// fixed: LastIrreversibleHeight not restored (bookkeeping on from the first block)
 		{"corpus:lih", cfg{Lockup: 3, LihStart: 0}, 12, map[int][][2]int{0: {{kReg, 0}}}},
@@ -839,6 +875,8 @@ func main() {
 		{"corpus:inactive-twice", cfg{Lockup: 3, LihStart: -1, Penalties: true}, 12, map[int][][2]int{0: {{kReg, 1}}, 7: {{kInactive, 1}}, 9: {{kInactive, 1}}}},
 		// a reactivated producer (activateRequestHeight set) becomes inactive again
 		{"corpus:inactive-after-reactivation", cfg{Lockup: 3, LihStart: -1, Penalties: true}, 22, map[int][][2]int{0: {{kReg, 2}}, 7: {{kInactive, 2}}, 8: {{kActivate, 2}}, 17: {{kInactive, 2}}}},
+		// illegal-blocks evidence delivered as special payloads after blocks 5 and 9 (pending-evidence set of the arbiters)
+		{"corpus:special-illegal-blocks", cfg{Lockup: 3, LihStart: -1}, 12, map[int][][2]int{0: {{kReg, 0}}}},
 		// two and a half POW <-> DPOS cycles: RevertToPOW, RevertToDPOS, resumption, RevertToPOW, RevertToDPOS, resumption, RevertToPOW
 		{"corpus:mode-switch-cycles", cfg{Lockup: 3, LihStart: 0}, 26, map[int][][2]int{0: {{kReg, 0}}, 3: {{kRevert, 0}}, 5: {{kRevert, 0}}, 12: {{kRevert, 0}},
 			14: {{kRevert, 0}}, 21: {{kRevert, 0}}}},
@@ -870,7 +908,7 @@ func main() {
 		}
 		a := newInst(c)
 		g := &gen{rng: rng, a: a, deposits: map[int][]string{}, allowConflict: rng.Chance(15) || sc != nil, refIDs: map[string]int{}, nickIDs: map[string]int{},
-			scripted: sc != nil, cycles: sc == nil && cycles, modeSwitch: sc == nil && !cycles && c.LihStart >= 0 && rng.Chance(50),
+			scripted: sc != nil, cycles: sc == nil && cycles, special: sc == nil && !cycles && rng.Chance(20), modeSwitch: sc == nil && !cycles && c.LihStart >= 0 && rng.Chance(50),
 			illegal: sc == nil && !cycles && rng.Chance(25), v2: sc == nil && !cycles && rng.Chance(25), inactive: c.Penalties}
 		start := a.abt.ChainParams.VoteStartHeight
 		var blocks []*blockd
@@ -881,8 +919,17 @@ func main() {
 				g.force = sc.txs[i]
 			}
 			b := g.block(start + uint32(i))
+			if sc != nil {
+				for _, x := range corpusSpecial[sc.kind] {
+					if x == i {
+						nonce++
+						b.Special = append(b.Special, &speciald{Kind: "illegal-blocks", Tag: byte(nonce)})
+						g.unmodelled = true
+					}
+				}
+			}
 			blocks = append(blocks, b)
-			a.process(b.real())
+			a.processD(b)
 			snaps = append(snaps, takeSnap(a.abt))
 			if len(g.refIDs) <= nRef && g.nick <= nNick {
 				obs = append(obs, vecCoq(project(a, g)))
@@ -914,7 +961,7 @@ func main() {
 			k := rng.Range(1, n)
 			f := newInst(c)
 			for i := 0; i < k; i++ {
-				f.process(blocks[i].real())
+				f.processD(blocks[i])
 			}
 			if fields, det := diff(takeSnap(f.abt), snaps[k]); len(fields) > 0 {
 				report1("harness:direct-build-not-deterministic:"+strings.Join(fields, "+"), "two direct builds of the same prefix differ",
@@ -923,7 +970,7 @@ func main() {
 		}
 		// (2) roll back height by height
 		depth := 8
-		if g.cycles || g.scripted {
+		if g.cycles || g.scripted || g.special {
 			depth = n // rollbacks to every height, across every mode switch
 		}
 		for k := n - 1; k >= 0 && k >= n-depth; k-- {
@@ -948,12 +995,12 @@ func main() {
 		// (3) jump on a fresh instance, then feed the rest again
 		for rep := 0; rep < 2; rep++ {
 			k := rng.Range(maxI(0, n-12), n-1)
-			if g.cycles || g.scripted {
+			if g.cycles || g.scripted || g.special {
 				k = rng.Range(0, n-1)
 			}
 			f := newInst(c)
 			for i := 0; i < n; i++ {
-				f.process(blocks[i].real())
+				f.processD(blocks[i])
 			}
 			f.abt.RollbackTo(start + uint32(k) - 1)
 			f.best = start + uint32(k) - 1
@@ -963,7 +1010,7 @@ func main() {
 				continue
 			}
 			for i := k; i < n; i++ {
-				f.process(blocks[i].real())
+				f.processD(blocks[i])
 			}
 			if fields, det := diff(takeSnap(f.abt), snaps[n]); len(fields) > 0 {
 				report(classify(fields, g), fmt.Sprintf("rollback to %d blocks and re-processing the rest differs from the straight run in: %s",
